@@ -140,7 +140,47 @@ def sample_indices(n, full):
     return sorted(i for i in s if 0 <= i < n)
 
 
+def run_far(ctx, case):
+    """header tables and sections at offsets at and beyond 2**31 / 2**32 / 2**62 (sparse file)"""
+    from vf.enc.sparse import sparse_elf
+    T = tables()
+    cls, le, base = case['cls'], case['le'], case['base']
+    secs = [{'name': '.text', 'sh_type': 1, 'sh_flags': 6, 'sh_addr': 0x1000, 'offset': base, 'size': 0x20, 'sh_addralign': 16},
+            {'name': '.strtab', 'sh_type': 3, 'offset': base + 0x100, 'size': 1, 'chunks': {0: b'\0'}},
+            {'name': '.symtab', 'sh_type': 2, 'sh_link': 2, 'sh_entsize': W.SYM_SIZE[cls], 'offset': base + 0x200, 'size': 0},
+            {'name': '.big', 'sh_type': 8, 'sh_flags': 3, 'sh_addr': (1 << (cls - 1)) + 8, 'offset': base + 0x300, 'size': (1 << (cls - 1)) + 5}]
+    segs = [{'p_type': 1, 'p_flags': 5, 'p_offset': base, 'p_vaddr': 0x1000, 'p_paddr': 0x1000, 'p_filesz': 0x20, 'p_memsz': (1 << (cls - 1)) + 1, 'p_align': 0x1000},
+            {'p_type': 0x6474e551, 'p_flags': 6, 'p_offset': (1 << cls) - 1, 'p_vaddr': (1 << cls) - 1, 'p_paddr': 0, 'p_filesz': 0, 'p_memsz': 0, 'p_align': 16}]
+    stream, hdrs = sparse_elf(cls, le, secs, segments=segs, shoff=base + 0x1000)
+    names = [''] + [x['name'] for x in secs] + ['.shstrtab']
+    tag = 'far|base=%#x' % base
+    try:
+        ef = T['ELFFile'](stream)
+        if ef['e_shoff'] != base + 0x1000 or ef.num_sections() != len(hdrs) or ef.num_segments() != 2:
+            ctx.fail(tag + '|counts', 'e_shoff %#x sections %d segments %d' % (ef['e_shoff'], ef.num_sections(), ef.num_segments()), case)
+        for i, (h, nm) in enumerate(zip(hdrs, names)):
+            sec = ef.get_section(i)
+            got = {k: sec[k] for k in W.SH_FIELDS if k != 'sh_type'}
+            if got != {k: h[k] for k in W.SH_FIELDS if k != 'sh_type'} or sec.name != nm:
+                ctx.fail(tag + '|section', 'section[%d]: encoded %r / %r, decoded %r / %r' % (i, h, nm, dict(sec.header), sec.name), case)
+            if ef.get_section_by_name(nm) is None or ef.get_section_index(nm) != i:
+                ctx.fail(tag + '|lookup', 'name %r' % nm, case)
+        for j, p in enumerate(segs):
+            seg = ef.get_segment(j)
+            got = {k: seg[k] for k in W.PH_FIELDS if k != 'p_type'}
+            if got != {k: p[k] for k in W.PH_FIELDS if k != 'p_type'}:
+                ctx.fail(tag + '|segment', 'segment[%d]: encoded %r decoded %r' % (j, p, dict(seg.header)), case)
+        if [x.name for x in ef.iter_sections()] != names:
+            ctx.fail(tag + '|iter_sections', 'names differ', case)
+    except Exception as e:  # noqa
+        ctx.fail_exc(tag, e, case)
+    ctx.count('far.files')
+    ctx.case(('far', cls, le, base), True, dict(case))
+
+
 def run_case(ctx, case):
+    if case.get('far'):
+        return run_far(ctx, case)
     T = tables()
     ELFFile, ELFError = T['ELFFile'], T['ELFError']
     m = case
@@ -609,6 +649,9 @@ def sweep(tier):
                  'p_paddr': j, 'p_filesz': j % 1000, 'p_memsz': j % 2000, 'p_align': 4096} for j in range(nseg)]
         return {'cls': cls, 'le': le, 'e_machine': 62, 'e_type': 3, 'sections': secs, 'segments': segs, 'shstrndx': shstr,
                 'order': ['sh', shstr, 'ph'], 'full_compare': False}
+    for k, (cls, base) in enumerate(((32, 0x7ffffff0), (32, 0x80000000), (32, 0xfffe0000), (64, 0x7ffffff0), (64, 0xfffffff8), (64, 1 << 32),
+                                     (64, (1 << 47) + 4), (64, (1 << 63) - 0x100000))):
+        cases.append({'far': True, 'cls': cls, 'le': bool(k % 2), 'base': base})
     cases.append(big(0xff20, 3, 64, True, 0xff20 - 1))
     if tier == 'thorough':
         cases.append(big(0xff00, 3, 64, True, 0xff00 - 1))
@@ -625,7 +668,7 @@ def sweep(tier):
 def floors(ctx):
     out = []
     c = ctx.counters
-    for k in ('cell.32le', 'cell.32be', 'cell.64le', 'cell.64be', 'feat.extnum', 'feat.oversized', 'feat.switched',
+    for k in ('far.files', 'cell.32le', 'cell.32be', 'cell.64le', 'cell.64be', 'feat.extnum', 'feat.oversized', 'feat.switched',
               'feat.unknown_code', 'real_ext_sections', 'real_ext_segments', 'family.invalid_links'):
         if c[k] == 0:
             out.append('no case with ' + k)
